@@ -2,7 +2,22 @@
 structure), the corpus of full-language grammar texts, and the workers that derive models and compare them."""
 from __future__ import annotations
 
+_KW = ['if', 'then', 'else', 'while', 'for', 'class', 'def', 'return', 'final', 'static', 'public', 'import', 'from', 'with', 'yield',
+       'lambda', 'assert', 'break', 'continue', 'pass', 'raise', 'try', 'except', 'finally', 'global', 'nonlocal', 'async', 'await',
+       'match', 'case', 'type', 'del', 'elif', 'is', 'not', 'and', 'or']
+
+
+def _kw_grammar(n):
+    return ('@@keyword :: ' + ' '.join(_KW[:n]) + '\n' if n else '') + "@name\nident = /[a-z]+/ ;\nstart = {ident}+ $ ;"
+
+
 FULL = [
+    # keyword tables long enough to wrap the @@keyword lines of the pretty-printed text (every boundary keyword is an input)
+    *[(f'keywords-{n}', _kw_grammar(n), ['ab cd', *_KW[:n], *[f'ab {k}' for k in _KW[:n:3]], 'zz']) for n in (9, 14, 23, 37)],
+    # wide and combining characters in tokens and rule names (railroad tracks are measured in display columns)
+    ('wide-tokens', "start = '你好' ('世界' | 'world') $ ;", ['你好 世界', '你好 world', '你好']),
+    ('wide-rule-names', "start = 名前 {',' 名前} $ ;\n名前 = 'a' | 'ｂ' | '長い名前' ;", ['a , ｂ', '長い名前', 'a ,']),
+    ('wide-named', "start = 左:'あ' [右+:('い' | 'う' | 'e\u0301')] $ ;", ['あ い', 'あ', 'あ e\u0301']),
     ('meta', "start = i:@int u:@uint f:@float b:@bool n:@name $ ;", ['-12 7 1.5 true x1', '3 4 2.0 False y_', 'x', '', '1 2 3 true 9']),
     ('eol', "start = {line}+ $ ;\nline = w:/[a-z]+/ $-> ;", ['ab\ncd\n', 'ab', 'ab\n\ncd\n', 'ab cd\n']),
     ('alert', "start = 'a' ^`careful` x:'b' ^^`{x} seen` | 'c' ;", ['a b', 'c', 'a']),
@@ -153,6 +168,17 @@ WS : ' '+ -> skip ;
 ]
 
 
+def _display_width(text):
+    """Terminal columns of a line, measured independently of the library: East Asian wide/fullwidth = 2, combining marks = 0."""
+    import unicodedata
+    n = 0
+    for ch in text:
+        if unicodedata.combining(ch) or unicodedata.category(ch) in ('Mn', 'Me', 'Cf'):
+            continue
+        n += 2 if unicodedata.east_asian_width(ch) in ('W', 'F') else 1
+    return n
+
+
 def run_pretty_case(case):
     """C13 for one grammar text: pretty -> recompile -> same model (modulo normalisations), same behaviour, fixpoint, railroads."""
     import tatsu
@@ -215,15 +241,18 @@ def run_pretty_case(case):
     for which, mm in (('original', m), ('recompiled', m2)):
         try:
             rr = mm.railroads()
-            rows = rr.splitlines() if isinstance(rr, str) else list(rr)
-            # tracks of one diagram have consistent width: blocks separated by blank rows are laid out independently
+            assert isinstance(rr, str)
+            from tatsu import railroads as _rr
+            rows = list(_rr.tracks(mm))       # the unstripped tracks: every row of one diagram has the same display width
             block = []
             for row in rows + ['']:
-                if row.strip() == '':
-                    ws = {visual_len(r) for r in block}
-                    block = []
-                    continue
                 block.append(row)
+                if row.strip() == '':
+                    ws = {_display_width(r) for r in block if r != ''}
+                    if len(ws) > 1:
+                        P.append(f'railroads of the {which} model: tracks of one diagram have display widths {sorted(ws)}: '
+                                 + ' / '.join(repr(r) for r in block[:3])[:240])
+                    block = []
         except AssertionError as e:
             P.append(f'railroads() of the {which} model: AssertionError {e}'[:300])
         except Exception as e:  # noqa: BLE001
